@@ -692,6 +692,40 @@ impl<'tcx> Cx<'tcx> {
         Some(jobj(items))
     }
 
+    /// named constants of the crate (`const X: T = ..`), with the MIR that computes them: the rules read the
+    /// initialiser instead of guessing at the evaluated memory layout
+    fn consts(&self) -> String {
+        let tcx = self.tcx;
+        let mut out = vec![];
+        let mut owners: Vec<_> = tcx.hir_body_owners().collect();
+        owners.sort_by_key(|d| tcx.def_path_hash(d.to_def_id()));
+        for ldid in owners {
+            let did = ldid.to_def_id();
+            let dk = tcx.def_kind(did);
+            if !matches!(dk, DefKind::Const { .. } | DefKind::AssocConst { .. }) {
+                continue;
+            }
+            if tcx.generics_of(did).count() != 0 {
+                continue;
+            }
+            let env = ty::TypingEnv::post_analysis(tcx, did);
+            let body = tcx.mir_for_ctfe(did);
+            let promoted = tcx.promoted_mir(did);
+            let mut ps = vec![];
+            for p in promoted.iter() {
+                ps.push(self.body(p, env));
+            }
+            out.push(jobj(vec![
+                ("path", js(&self.path(did))),
+                ("kind", js(&format!("{:?}", dk))),
+                ("sp", self.span(tcx.def_span(did))),
+                ("body", self.body(body, env)),
+                ("promoted", jlist(ps)),
+            ]));
+        }
+        jlist(out)
+    }
+
     fn adts(&self) -> String {
         let tcx = self.tcx;
         let mut out = vec![];
@@ -823,6 +857,7 @@ impl Callbacks for Extract {
             ("adts", cx.adts()),
             ("impls", cx.impls()),
             ("statics", cx.statics()),
+            ("consts", cx.consts()),
         ]);
         let path = format!("{}/{}.json", self.out_dir, krate);
         let tmp = format!("{}.tmp.{}", path, std::process::id());
